@@ -387,11 +387,19 @@ func (set *Set) remove(hosts ...*Host) {
 	if len(hosts) == 0 {
 		return
 	}
+	removed := make([]*Host, 0, len(hosts))
 	for _, host := range hosts {
+		// The caller may pass an equal host which is built afresh, what
+		// matters is the one known by the set and seen by its users.
+		stored, ok := set.all[host.Addr]
+		if !ok {
+			continue
+		}
 		delete(set.all, host.Addr)
-		host.markRemoved()
+		stored.markRemoved()
+		removed = append(removed, stored)
 	}
-	set.removeFromHealthy(hosts...)
+	set.removeFromHealthy(removed...)
 }
 
 // MarkHostHealthy marks the given host as healthy.
